@@ -9,7 +9,7 @@ Definition link_up (f : ifa) : bool := dev_known f && oper_up f.
    interface whose link is up runs both routines on an open handle with a live ticker; an active
    interface whose link is not up runs nothing and its handle (if any) is closed. *)
 Definition inv (f : ifa) : Prop :=
-  done_closed f = false /\
+  subscribed f = true /\ done_closed f = false /\
   (if passive f then
      eth f = NoHandle /\ initialized f = false /\ sender f = false /\ receiver f = false
    else if link_up f then
@@ -26,9 +26,9 @@ Lemma device_update_inv : forall f up, inv f ->
   exists f', device_update f up = Ok f' /\ inv f' /\ passive f' = passive f /\ link_up f' = up.
 Proof.
   intros f up Hinv.
-  destruct f as [p k u i d e n t s r].
+  destruct f as [p k u i d e n t s r sb].
   unfold inv, link_up in Hinv. simpl in Hinv.
-  destruct Hinv as [Hd Hrest]. subst d.
+  destruct Hinv as [Hsb [Hd Hrest]]. subst d sb.
   destruct p.
   - (* passive *)
     destruct Hrest as (He & Hi & Hs & Hr). subst e i s r.
@@ -47,8 +47,14 @@ Proof.
         eexists; (split; [reflexivity |]); simpl; repeat split; congruence.
 Qed.
 
+Lemma deliver_head : forall f up, inv f -> deliver head_discipline f up = device_update f up.
+Proof.
+  intros f up [Hsb _]. unfold deliver. rewrite Hsb. cbn [stop_unsubscribes head_discipline andb].
+  destruct (device_update f up); reflexivity.
+Qed.
+
 Lemma update_nth_inv : forall i s up, Forall inv s ->
-  exists s', update_nth i s up = Ok s' /\ Forall inv s' /\ length s' = length s /\
+  exists s', update_nth head_discipline i s up = Ok s' /\ Forall inv s' /\ length s' = length s /\
     forall j, match nth_error s j, nth_error s' j with
               | Some f, Some f' => passive f' = passive f /\
                                    link_up f' = (if Nat.eqb j i then up else link_up f)
@@ -61,7 +67,7 @@ Proof.
     + exists []. simpl. repeat split; auto. intros j. destruct j; simpl; auto.
     + inversion Hall as [| ? ? Hf Hr]; subst.
       destruct (device_update_inv f up Hf) as (f' & Hdu & Hinv' & Hp & Hl).
-      exists (f' :: r). simpl. rewrite Hdu. simpl. repeat split; auto.
+      exists (f' :: r). simpl. rewrite (deliver_head f up Hf), Hdu. simpl. repeat split; auto.
       intros j. destruct j as [| j]; simpl.
       * split; auto.
       * destruct (nth_error r j); auto.
@@ -96,7 +102,7 @@ Proof.
   inversion Hall as [| ? ? Hf Hr]; subst.
   rewrite (IH Hr).
   unfold hello_count, sends_hellos.
-  destruct Hf as [_ Hf].
+  destruct Hf as [_ [_ Hf]].
   destruct (passive f).
   - destruct Hf as (He & _ & Hs & _). rewrite Hs. simpl. reflexivity.
   - destruct (link_up f).
@@ -125,7 +131,7 @@ Proof.
   unfold device_update_during, head_discipline. cbn [sender_locks receiver_locks].
   rewrite !andb_false_r. rewrite Hdu.
   unfold during_hellos, hello_count, sends_hellos.
-  destruct Hinv as [_ Hi]. destruct w; cbn [bind].
+  destruct Hinv as [_ [_ Hi]]. destruct w; cbn [bind].
   - destruct (passive f).
     + destruct Hi as (_ & _ & Hs & _). rewrite Hs. simpl. destruct (dev_known f && oper_up f && negb up); reflexivity.
     + destruct (link_up f).
@@ -137,7 +143,7 @@ Proof.
 Qed.
 
 Lemma update_nth_during_ok : forall i s up w, Forall inv s ->
-  exists s', update_nth i s up = Ok s' /\
+  exists s', update_nth head_discipline i s up = Ok s' /\
     update_nth_during head_discipline i s up w =
       Ok (s', match nth_error s i with Some f => during_hellos f w | None => 0%nat end).
 Proof.
@@ -145,7 +151,7 @@ Proof.
   - destruct s as [| f r]; [exists []; split; reflexivity |].
     inversion Hall as [| ? ? Hf Hr]; subst.
     destruct (device_update_during_inv f up w Hf) as (f' & Hd & Hu).
-    exists (f' :: r). simpl. rewrite Hu, Hd. simpl. split; reflexivity.
+    exists (f' :: r). simpl. rewrite (deliver_head f up Hf), Hu. rewrite (proj1 Hf), Hd. simpl. split; reflexivity.
   - destruct s as [| f r]; [exists []; split; reflexivity |].
     inversion Hall as [| ? ? Hf Hr]; subst.
     destruct (IH r up w Hr) as (r' & Hu & Hd).
@@ -242,7 +248,7 @@ Qed.
 Theorem hellos_after_up_all : forall kinds evs, hellos_after_up kinds evs.
 Proof.
   intros kinds evs s i f Hrun Hnth Hact Hlast.
-  destruct (after_run kinds evs s i f Hrun Hnth) as [[_ Hinv] Hl].
+  destruct (after_run kinds evs s i f Hrun Hnth) as [[_ [_ Hinv]] Hl].
   rewrite Hact in Hinv. rewrite Hl, Hlast in Hinv.
   destruct Hinv as (_ & He & Hs & Hr & Ht).
   unfold sends_hellos, can_form_adjacency. rewrite He, Hs, Hr, Ht. auto.
@@ -251,7 +257,7 @@ Qed.
 Theorem quiet_otherwise_all : forall kinds evs, quiet_otherwise kinds evs.
 Proof.
   intros kinds evs s i f Hrun Hnth Hcase.
-  destruct (after_run kinds evs s i f Hrun Hnth) as [[_ Hinv] Hl].
+  destruct (after_run kinds evs s i f Hrun Hnth) as [[_ [_ Hinv]] Hl].
   unfold sends_hellos, can_form_adjacency.
   destruct (passive f) eqn:Hp.
   - destruct Hinv as (_ & _ & Hs & Hr). rewrite Hs, Hr. auto.
@@ -275,17 +281,35 @@ Qed.
 
 (* in ANY state between events in which an active interface's link is up, a link-down update during
    which the hello ticker fires blocks for good when the sender takes nifa.mu *)
-Theorem sender_lock_blocks : forall f rl, inv f -> passive f = false -> link_up f = true ->
-  device_update_during (mkDisc true rl) f false TickDuring = Blocked WaitHelloSender.
+Theorem sender_lock_blocks : forall f rl us, inv f -> passive f = false -> link_up f = true ->
+  device_update_during (mkDisc true rl us) f false TickDuring = Blocked WaitHelloSender.
 Proof.
-  intros f rl [_ Hi] Hp Hl. rewrite Hp, Hl in Hi. destruct Hi as (_ & He & Hs & _ & Ht).
+  intros f rl us [_ [_ Hi]] Hp Hl. rewrite Hp, Hl in Hi. destruct Hi as (_ & He & Hs & _ & Ht).
   unfold device_update_during. unfold link_up in Hl. rewrite Hl, Hs, Ht, He. reflexivity.
 Qed.
 
 (* the same for a receiver that takes it *)
-Theorem receiver_lock_blocks : forall f sl, inv f -> passive f = false -> link_up f = true ->
-  device_update_during (mkDisc sl true) f false FrameDuring = Blocked WaitReceiver.
+Theorem receiver_lock_blocks : forall f sl us, inv f -> passive f = false -> link_up f = true ->
+  device_update_during (mkDisc sl true us) f false FrameDuring = Blocked WaitReceiver.
 Proof.
-  intros f sl [_ Hi] Hp Hl. rewrite Hp, Hl in Hi. destruct Hi as (_ & He & _ & Hr & _).
+  intros f sl us [_ [_ Hi]] Hp Hl. rewrite Hp, Hl in Hi. destruct Hi as (_ & He & _ & Hr & _).
   unfold device_update_during. unfold link_up in Hl. rewrite Hl, Hr, He. reflexivity.
 Qed.
+
+(* ---- the subscription with the device server ---- *)
+
+Theorem stays_subscribed : forall kinds evs s i f,
+  run head_discipline (init kinds) evs = Ok s -> nth_error s i = Some f -> subscribed f = true.
+Proof.
+  intros kinds evs s i f Hrun Hnth.
+  destruct (after_run kinds evs s i f Hrun Hnth) as [[Hsb _] _]. exact Hsb.
+Qed.
+
+(* flipped wiring: _stop gives the subscription up - the interface never hears the link come back *)
+Theorem unsubscribe_in_stop_loses_link_up :
+  match run (mkDisc false false true) (init [false]) [Dev 0 true; Dev 0 false; Dev 0 true] with
+  | Ok [f] => subscribed f = false /\ sends_hellos f = false /\
+              last_up [Dev 0 true; Dev 0 false; Dev 0 true] 0 false = true
+  | _ => False
+  end.
+Proof. vm_compute. repeat split; reflexivity. Qed.
